@@ -97,7 +97,7 @@ class Rec(dict):
     def put(self, k, v):
         dict.__setitem__(self, freeze(k), freeze(v))
 
-_CALLS = {'len': len, 'min': min, 'max': max, 'sum': sum, 'int': int, 'abs': abs, 'any': any, 'all': all, 'bool': bool,
+_CALLS = {'len': len, 'min': min, 'max': max, 'sum': sum, 'int': int, 'float': float, 'abs': abs, 'any': any, 'all': all, 'bool': bool,
           'range': range, 'enumerate': enumerate, 'zip': zip, 'list': list, 'tuple': tuple, 'sorted': sorted, 'reversed': reversed,
           'next': lambda it, *d: next(iter(it), *d), 'set': set, 'str': str, 'print': lambda *a, **k: None}
 
@@ -105,6 +105,16 @@ _CALLS = {'len': len, 'min': min, 'max': max, 'sum': sum, 'int': int, 'abs': abs
 def stub(fn):
     fn._kv_stub = True
     return fn
+
+
+def _args(args, env):
+    out = []
+    for a in args:
+        if isinstance(a, ast.Starred):
+            out.extend(list(ev(a.value, env)))
+        else:
+            out.append(ev(a, env))
+    return out
 
 
 def ev(e, env):
@@ -120,6 +130,8 @@ def ev(e, env):
             return getattr(b, e.attr)
         if isinstance(b, tuple) and hasattr(type(b), '_fields') and e.attr in type(b)._fields:
             return getattr(b, e.attr)       # a namedtuple of the rule
+        if getattr(b, '_kv_token', False) and e.attr in ('value', 'type'):
+            return getattr(b, e.attr)       # a lexer token stand-in (a str with .value, like lark's Token)
         if b is None or isinstance(b, (NS, int, float, str, tuple, list)):
             raise AttributeError(f'{type(b).__name__!r} object has no attribute {e.attr!r}')    # what the code itself would raise
         raise ModelError(f'minieval: attribute {ast.unparse(e)}')
@@ -216,10 +228,10 @@ def ev(e, env):
                     dgen(k + 1, env3)
         dgen(0, env)
         return out
-    if isinstance(e, ast.Call) and isinstance(e.func, ast.Attribute) and e.func.attr in ('values', 'items', 'keys', 'get') and not e.keywords:
+    if isinstance(e, ast.Call) and isinstance(e.func, ast.Attribute) and e.func.attr in ('values', 'items', 'keys', 'get', 'setdefault') and not e.keywords:
         b = ev(e.func.value, env)
         if isinstance(b, dict) and not isinstance(b, Rec):
-            return getattr(b, e.func.attr)(*[ev(a, env) for a in e.args]) if e.func.attr == 'get' else list(getattr(b, e.func.attr)())
+            return getattr(b, e.func.attr)(*_args(e.args, env)) if e.func.attr in ('get', 'setdefault') else list(getattr(b, e.func.attr)())
     if isinstance(e, (ast.GeneratorExp, ast.ListComp)):
         out = []
 
@@ -248,7 +260,7 @@ def ev(e, env):
             return hasattr(o, a)
         raise ModelError('minieval: hasattr on an unmodelled object')
     if isinstance(e, ast.Call) and isinstance(e.func, ast.Name) and isinstance(env.get(e.func.id), type) and getattr(env[e.func.id], '_kv_class', False):
-        return env[e.func.id](*[ev(a, env) for a in e.args], **{k.arg: ev(k.value, env) for k in e.keywords if k.arg})      # a class of the rule (stand-in or evaluated)
+        return env[e.func.id](*_args(e.args, env), **{k.arg: ev(k.value, env) for k in e.keywords if k.arg})      # a class of the rule (stand-in or evaluated)
     if isinstance(e, ast.Call) and isinstance(e.func, ast.Name) and e.func.id == 'defaultdict' and len(e.args) == 1 and isinstance(e.args[0], ast.Name) \
             and e.args[0].id in ('list', 'dict', 'int', 'set') and not e.keywords:
         import collections
@@ -269,11 +281,11 @@ def ev(e, env):
     if isinstance(e, ast.Call) and isinstance(e.func, ast.Attribute) and e.func.attr in ('append', 'extend') and not e.keywords:
         recv = ev(e.func.value, env)
         if isinstance(recv, list) or type(recv).__name__ == 'deque':        # comprehension evaluated for its effect on a list the code itself created
-            getattr(recv, e.func.attr)(*[ev(a, env) for a in e.args])
+            getattr(recv, e.func.attr)(*_args(e.args, env))
             return None
     if isinstance(e, ast.Call) and isinstance(e.func, ast.Name) and e.func.id == 'deque' and len(e.args) <= 1 and not e.keywords:
         import collections
-        return collections.deque(*[ev(a, env) for a in e.args])
+        return collections.deque(*_args(e.args, env))
     if isinstance(e, ast.Call) and isinstance(e.func, ast.Attribute) and isinstance(e.func.value, ast.Name) and e.func.value.id == 'np' \
             and e.func.attr == 'zeros' and len(e.args) == 1 and all(k.arg == 'dtype' for k in e.keywords) and not isinstance(env.get('np'), NS):
         n = ev(e.args[0], env)
@@ -289,34 +301,34 @@ def ev(e, env):
         import collections
         b = ev(e.func.value, env)
         if isinstance(b, collections.deque) or (isinstance(b, list) and e.func.attr == 'pop'):
-            return getattr(b, e.func.attr)(*[ev(a, env) for a in e.args])    # IndexError on an empty container: what the code would raise
+            return getattr(b, e.func.attr)(*_args(e.args, env))    # IndexError on an empty container: what the code would raise
     if isinstance(e, ast.Call) and isinstance(e.func, ast.Name) and e.func.id in _CALLS and not e.keywords:
-        return _CALLS[e.func.id](*[ev(a, env) for a in e.args])
+        return _CALLS[e.func.id](*_args(e.args, env))
     if isinstance(e, ast.Call) and isinstance(e.func, ast.Attribute) and isinstance(e.func.value, ast.Name) and e.func.value.id == 're' \
             and e.func.attr in ('sub', 'split', 'match', 'fullmatch', 'search', 'findall', 'compile') and not e.keywords:
         import re as _re
-        return getattr(_re, e.func.attr)(*[ev(a, env) for a in e.args])   # the regular-expression engine applied to constant data
+        return getattr(_re, e.func.attr)(*_args(e.args, env))   # the regular-expression engine applied to constant data
     if isinstance(e, ast.Call) and isinstance(e.func, ast.Attribute) and e.func.attr in (
             'startswith', 'endswith', 'lower', 'upper', 'find', 'rfind', 'index', 'partition', 'rpartition', 'strip', 'lstrip', 'rstrip', 'split',
             'replace', 'isspace', 'count', 'join') and not e.keywords:
         b = ev(e.func.value, env)
         if isinstance(b, str):
-            return getattr(b, e.func.attr)(*[ev(a, env) for a in e.args])
+            return getattr(b, e.func.attr)(*_args(e.args, env))
     if isinstance(e, ast.Call) and isinstance(e.func, ast.Attribute) and e.func.attr in ('sub', 'split', 'match', 'fullmatch', 'search', 'findall') and not e.keywords:
         import re as _re
         b = ev(e.func.value, env)
         if isinstance(b, _re.Pattern):        # a compiled constant pattern
-            return getattr(b, e.func.attr)(*[ev(a, env) for a in e.args])
+            return getattr(b, e.func.attr)(*_args(e.args, env))
     if isinstance(e, ast.Call) and isinstance(e.func, ast.Name) and isinstance(env.get(e.func.id), LocalFn) and not e.keywords:
         lf = env[e.func.id]
-        return call_function(lf.fdef, [ev(a, env) for a in e.args], lf.env)
+        return call_function(lf.fdef, _args(e.args, env), lf.env)
     if isinstance(e, ast.Call) and isinstance(e.func, ast.Attribute) and all(k.arg for k in e.keywords):
         # a method of one of the rule's stand-in objects: the rule supplies a recording stub (marked _kv_stub)
         b = ev(e.func.value, env)
         if isinstance(b, NS) and callable(getattr(b, e.func.attr, None)) and getattr(getattr(b, e.func.attr), '_kv_stub', False):
-            return getattr(b, e.func.attr)(*[ev(a, env) for a in e.args], **{k.arg: ev(k.value, env) for k in e.keywords})
+            return getattr(b, e.func.attr)(*_args(e.args, env), **{k.arg: ev(k.value, env) for k in e.keywords})
     if isinstance(e, ast.Call) and isinstance(e.func, ast.Name) and getattr(env.get(e.func.id), '_kv_stub', False) and all(k.arg for k in e.keywords):
-        return env[e.func.id](*[ev(a, env) for a in e.args], **{k.arg: ev(k.value, env) for k in e.keywords})     # a stand-in constructor / function of the rule
+        return env[e.func.id](*_args(e.args, env), **{k.arg: ev(k.value, env) for k in e.keywords})     # a stand-in constructor / function of the rule
     raise ModelError(f'minieval: expression outside the subset: {ast.unparse(e)[:80]}')
 
 
@@ -468,7 +480,7 @@ def run(stmts, env):
         if isinstance(st, ast.Expr) and isinstance(st.value, ast.Call) and isinstance(st.value.func, ast.Attribute) \
                 and st.value.func.attr in ('append', 'appendleft', 'extend', 'extendleft', 'popleft', 'pop', 'clear') and not st.value.keywords \
                 and type(ev(st.value.func.value, env)).__name__ == 'deque':
-            getattr(ev(st.value.func.value, env), st.value.func.attr)(*[ev(a, env) for a in st.value.args])
+            getattr(ev(st.value.func.value, env), st.value.func.attr)(*_args(st.value.args, env))
             continue
         if isinstance(st, ast.Expr) and isinstance(st.value, ast.Call) and isinstance(st.value.func, ast.Attribute) \
                 and st.value.func.attr not in ('append', 'extend', 'reverse', 'insert', 'add'):
@@ -479,7 +491,7 @@ def run(stmts, env):
             recv = ev(st.value.func.value, env)
             if not isinstance(recv, (list, set)):
                 raise ModelError(f'minieval: {st.value.func.attr} on {type(recv).__name__}')
-            getattr(recv, st.value.func.attr)(*[ev(a, env) for a in st.value.args])
+            getattr(recv, st.value.func.attr)(*_args(st.value.args, env))
             continue
         if isinstance(st, ast.Assign) and len(st.targets) > 1 and all(isinstance(t, ast.Name) for t in st.targets):
             v = ev(st.value, env)      # chained assignment a = b = value
@@ -589,3 +601,17 @@ def make_class(classdef, genv):
             return stub(call)
     K.__name__ = classdef.name
     return K
+
+
+class TokenStr(str):
+    """Stand-in for lark's Token: a str subclass whose .value is the text."""
+    _kv_token = True
+
+    def __new__(cls, text, type_='TOKEN'):
+        o = super().__new__(cls, text)
+        o.type = type_
+        return o
+
+    @property
+    def value(self):
+        return str(self)
